@@ -217,7 +217,10 @@ func (e *Engine) ceval(x CExpr, env *Env) Value {
 		case SliceV:
 			es, ok := scalarSort(b.Elem)
 			if !ok {
-				cfail("contract index into slice of non-scalars")
+				if env.fc == nil || env.st == nil {
+					cfail("contract index into slice of structs needs a program state")
+				}
+				return env.fc.heapLoad(env.st, b.Elem, b.Ref, plus(b.Off, idx.T))
 			}
 			return Sc{app("select", app("select", e.heapFor(env, es), b.Ref), plus(b.Off, idx.T)), es}
 		case MapV:
